@@ -166,6 +166,116 @@ pub fn c18_h3(rep: &Arc<Reporter>, args: &Args) {
     });
 }
 
+/// Reverse proxy over HTTP/3: selected by SNI and by the path mask on the main host; the origin must receive
+/// the HTTP/1.1 form of the request with exactly one X-Original-Protocol (the endpoint's), request bodies
+/// included, and its response must reach the client unchanged. A path that only contains the mask is not proxied.
+pub fn c18_h3_rp(rep: &Arc<Reporter>, args: &Args) {
+    const BODY: usize = 300_000;
+    /// what the origin saw on one connection
+    #[derive(Clone, Default)]
+    struct Conn { bytes: Vec<u8>, head_end: usize, body_before_response: Option<usize> }
+    let dir = env::work_dir(&args.root, "c18h3rp");
+    let rt = env::rt_multi(4);
+    rt.block_on(async {
+        let origin = TcpListener::bind("127.0.0.1:0").await.expect("bind");
+        let origin_addr = origin.local_addr().unwrap();
+        let seen: Arc<std::sync::Mutex<Vec<Conn>>> = Default::default();
+        {
+            let seen = seen.clone();
+            tokio::spawn(async move {
+                loop {
+                    let Ok((mut s, _)) = origin.accept().await else { continue };
+                    let seen = seen.clone();
+                    tokio::spawn(async move {
+                        let mut buf = vec![0u8; 65536];
+                        let mut got: Vec<u8> = vec![];
+                        let head_end = loop {
+                            if let Some(p) = got.windows(4).position(|w| w == b"\r\n\r\n") { break p + 4; }
+                            match tokio::time::timeout(Duration::from_secs(10), s.read(&mut buf)).await { Ok(Ok(n)) if n > 0 => got.extend_from_slice(&buf[..n]), _ => { seen.lock().unwrap().push(Conn { bytes: got, ..Default::default() }); return; } }
+                        };
+                        let slot = { let mut g = seen.lock().unwrap(); g.push(Conn { bytes: got.clone(), head_end, body_before_response: None }); g.len() - 1 };
+                        let head = String::from_utf8_lossy(&got[..head_end]).to_lowercase();
+                        let want_body: usize = head.lines().find_map(|l| l.strip_prefix("content-length:").and_then(|v| v.trim().parse().ok())).unwrap_or(0);
+                        // like any ordinary HTTP server: the whole request first (up to 4 s of patience), then the response
+                        let deadline = tokio::time::Instant::now() + Duration::from_secs(4);
+                        while got.len() < head_end + want_body {
+                            match tokio::time::timeout_at(deadline, s.read(&mut buf)).await { Ok(Ok(n)) if n > 0 => { got.extend_from_slice(&buf[..n]); seen.lock().unwrap()[slot].bytes = got.clone(); } _ => break }
+                        }
+                        seen.lock().unwrap()[slot].body_before_response = Some(got.len() - head_end);
+                        let _ = s.write_all(format!("HTTP/1.1 200 OK\r\nContent-Length: {}\r\nX-Origin: yes\r\n\r\n", BODY).as_bytes()).await;
+                        let _ = s.write_all(&common::prng::coded_stream(0xc18, 3, 0, BODY)).await;
+                        let _ = s.shutdown().await;
+                        let _ = tokio::time::timeout(Duration::from_secs(10), async { loop { match s.read(&mut buf).await { Ok(0) | Err(_) => break, Ok(n) => { got.extend_from_slice(&buf[..n]); seen.lock().unwrap()[slot].bytes = got.clone(); } } } }).await;
+                    });
+                }
+            });
+        }
+        let hosts = Hosts { main: vec![("main.test".into(), vec![])], reverse_proxy: vec!["rp.test".into()], ..Default::default() };
+        let clients = vec![("u-h3".to_string(), "p-h3".to_string())];
+        let ep = start_endpoint(&dir, "127.0.0.1", &hosts, registry(&clients), clients, (true, true, true), move |b| {
+            b.reverse_proxy(trusttunnel::settings::ReverseProxySettings::builder().server_address(origin_addr).unwrap().path_mask("/rp".into()).build().unwrap())
+        }).await;
+        let upload = common::prng::coded_stream(0xc18, 4, 0, 5000);
+        // (name, sni, method, path, body, proxied?)
+        let cases: Vec<(&str, &str, &str, &str, Option<&[u8]>, bool)> = vec![
+            ("selected by SNI", "rp.test", "GET", "/chat?x=1", None, true),
+            ("selected by the path mask on the main host", "main.test", "GET", "/rp/y?z=2", None, true),
+            ("POST with a body, selected by SNI", "rp.test", "POST", "/submit", Some(&upload), true),
+            ("path containing the mask elsewhere than at its start", "main.test", "GET", "/app/rp/y", None, false),
+        ];
+        for (name, sni, method, path, body, proxied) in cases {
+            let mut c = match H3::connect(ep.addr, sni, &[b"h3"], Duration::from_secs(5), 30_000).await {
+                Ok(c) => c,
+                Err(e) => { rep.inconclusive(&format!("h3: QUIC session could not be established ({})", e.chars().take(50).collect::<String>())); continue }
+            };
+            seen.lock().unwrap().clear();
+            let mut headers = vec![hdr("x-client-header", b"abc"), hdr("x-original-protocol", b"HTTP1")];
+            if let Some(b) = body { headers.push(hdr("content-length", b.len().to_string().as_bytes())); }
+            let id = match c.request(method, Some("https"), "10.9.8.7:81", Some(path), &headers, body.is_none()) { Ok(id) => id, Err(e) => { rep.inconclusive(&format!("h3: request failed ({})", e)); continue } };
+            if let Some(b) = body { let _ = c.send_body(id, b, true, Duration::from_secs(10)).await; }
+            c.run_until(Duration::from_secs(20), |c| c.streams.get(&id).map(|s| s.finished || s.reset.is_some()).unwrap_or(false) || c.closed.is_some()).await;
+            if body.is_some() { c.run_until(Duration::from_millis(500), |_| false).await; }
+            let st = c.stream(id);
+            rep.evals(1);
+            rep.distinct(common::fnv(format!("c18h3|rp|{}", name).as_bytes()));
+            let origin_saw = seen.lock().unwrap().clone();
+            let first = origin_saw.first().cloned().unwrap_or_default();
+            let origin_text = String::from_utf8_lossy(&first.bytes[..if first.head_end > 0 { first.head_end } else { first.bytes.len() }]).to_string();
+            let w = json!({"kind":"h3-reverse-proxy","case":name,"sni":sni,"request":format!("{} {}", method, path),"origin_received":origin_text.chars().take(400).collect::<String>(),"response":st.summary(),"x_origin":st.header("x-origin"),"connection_closed":c.closed});
+            if !proxied {
+                if !origin_saw.is_empty() { rep.violation("H3: a request whose path only contains the reverse-proxy mask (not at its start) was proxied to the origin", w); }
+                else { rep.tally("H3 reverse proxy: path containing the mask elsewhere -> not proxied", 1); }
+                c.close().await;
+                continue;
+            }
+            if origin_saw.is_empty() || first.head_end == 0 { rep.violation(&format!("H3 reverse-proxy request not delivered to the origin ({})", name), w); c.close().await; continue; }
+            let lower = origin_text.to_lowercase();
+            let head_only = lower.split("\r\n\r\n").next().unwrap_or("").to_string();
+            let xop: Vec<&str> = head_only.lines().filter(|l| l.starts_with("x-original-protocol:")).collect();
+            let mut ok = true;
+            if !origin_text.starts_with(&format!("{} {} HTTP/1.1\r\n", method, path)) || !head_only.contains("x-client-header: abc") { ok = false; rep.violation("H3: origin did not receive the HTTP/1.1 form of the request", w.clone()); }
+            if xop.len() != 1 || xop[0].trim() != "x-original-protocol: http3" { ok = false; let mut w2 = w.clone(); w2["x_original_protocol_lines_at_origin"] = json!(xop); rep.violation("H3: origin did not receive exactly one X-Original-Protocol header with the endpoint's value", w2); }
+            if let Some(b) = body {
+                let got_body = first.bytes[first.head_end..].to_vec();
+                let before = first.body_before_response.unwrap_or(0);
+                let mut w2 = w.clone(); w2["body_sent_len"] = json!(b.len()); w2["body_at_origin_before_it_answered"] = json!(before); w2["body_at_origin_in_the_end"] = json!(got_body.len()); w2["origin_patience_secs"] = json!(4);
+                if got_body != b { ok = false; rep.violation("H3: request body did not reach the reverse-proxy origin unchanged", w2); }
+                else if before < b.len() { ok = false; rep.violation("reverse proxy (HTTP/3): request body withheld from the origin until the origin has answered", w2); }
+            }
+            let want = common::prng::coded_stream(0xc18, 3, 0, BODY);
+            if st.status() != Some(200) || st.final_heads() != 1 || st.header("x-origin") != Some("yes") { ok = false; rep.violation("H3: origin's response head was not relayed to the client", w.clone()); }
+            else if st.body != want || !st.finished {
+                ok = false;
+                let mut w2 = w.clone(); w2["first_differing_offset"] = json!(st.body.iter().zip(want.iter()).position(|(a, b)| a != b)); w2["expected_body_len"] = json!(BODY);
+                rep.violation("H3: origin's response body was not relayed unchanged (or the stream was not finished)", w2);
+            }
+            if ok { rep.tally(&format!("H3 reverse proxy, {}: request (HTTP/1.1 form, X-Original-Protocol: HTTP3) and response relayed", name), 1); }
+            c.close().await;
+        }
+        ep.task.abort();
+    });
+}
+
 // ------------------------------------------------------------------ C01 over HTTP/3
 
 pub fn c01_h3(rep: &Arc<Reporter>, args: &Args) {
